@@ -68,6 +68,20 @@ pub fn hex(b: &[u8]) -> String {
     s
 }
 
+/// bring an existing configuration object to `bits` (each setter called once, with the wanted value)
+fn set_config(c: &mut ParserConfig, from: u32, bits: u32) {
+    // only the setters of the options that change are called (a setter that forgets to refresh derived state
+    // is then not masked by its neighbours)
+    let ch = from ^ bits;
+    if ch & 1 != 0 { c.allow_spaces_after_header_name_in_responses(bits & 1 != 0); }
+    if ch & 2 != 0 { c.allow_obsolete_multiline_headers_in_responses(bits & 2 != 0); }
+    if ch & 4 != 0 { c.allow_multiple_spaces_in_request_line_delimiters(bits & 4 != 0); }
+    if ch & 8 != 0 { c.allow_multiple_spaces_in_response_status_delimiters(bits & 8 != 0); }
+    if ch & 16 != 0 { c.allow_space_before_first_header_name(bits & 16 != 0); }
+    if ch & 32 != 0 { c.ignore_invalid_headers_in_responses(bits & 32 != 0); }
+    if ch & 64 != 0 { c.ignore_invalid_headers_in_requests(bits & 64 != 0); }
+}
+
 pub fn mk_config(bits: u32) -> ParserConfig {
     let mut c = ParserConfig::default();
     // every setter is first called with the opposite value and then with the wanted one, so that a
@@ -395,22 +409,52 @@ fn run_hist(args: &[&str]) -> Option<String> {
     let mut out = String::new();
     let view_before;
     let probe_obs;
+    // ONE configuration object serves the whole history (reconfigured through its setters between the calls),
+    // and for odd `n` it serves a parse of the OTHER message kind under the probe's options right before the probe: the
+    // outcome must depend on the option values only, not on what the object was used for before
+    let mut shared = ParserConfig::default();
+    let mut cur_bits = 0u32;
+    let warm = |shared: &ParserConfig| {
+        let mut wh = [httparse::EMPTY_HEADER; 4];
+        if *kind == "req" {
+            let mut w = Response::new(&mut wh);
+            let _ = shared.parse_response(&mut w, b"HTTP/1.1 200 OK\r\nA: b\r\n c\r\n\r\n");
+        } else {
+            let mut w = Request::new(&mut wh);
+            let _ = shared.parse_request(&mut w, b"GET / HTTP/1.1\r\nA: b\r\n c\r\n\r\n");
+        }
+    };
+    // buffers of earlier calls that do not share memory with the probe's are given up (made inaccessible)
+    // for the duration of the probe call: it must not read them
+    let revoke = |on: bool| {
+        for i in 0..n {
+            let (b, p) = (&calls[i].2, &calls[n].2);
+            let shares = b.len() <= p.len() && p[..b.len()] == b[..];
+            if !shares && !b.is_empty() { bufs[i].revoke(on); }
+        }
+    };
     match *kind {
         "req" => {
             // SAFETY: all slots initialised
             let init: &mut [Header<'_>] = unsafe { &mut *(a.slots_mut() as *mut [MaybeUninit<Header<'_>>] as *mut [Header<'_>]) };
             let mut req = Request::new(init);
             for i in 0..n {
-                let cfg = mk_config(calls[i].1);
+                set_config(&mut shared, cur_bits, calls[i].1);
+                cur_bits = calls[i].1;
+                let cfg = &shared;
                 // SAFETY: each uninit array is used by one call only and outlives `req`
                 let r = if calls[i].0 == 0 { req.parse(views[i]) } else if calls[i].0 == 3 { cfg.parse_request_with_uninit_headers(&mut req, views[i], unsafe { uslice(uptrs[i], cap) }) } else { cfg.parse_request(&mut req, views[i]) };
                 out.push_str(&format!("{};", status_str(&r)));
             }
             view_before = req.headers.len();
-            let cfg = mk_config(calls[n].1);
+            set_config(&mut shared, cur_bits, calls[n].1);
+            if n % 2 == 1 { warm(&shared); }
+            let cfg = &shared;
             let b = views[n];
             // SAFETY: as above
+            revoke(true);
             let r = if calls[n].0 == 0 { req.parse(b) } else if calls[n].0 == 3 { cfg.parse_request_with_uninit_headers(&mut req, b, unsafe { uslice(uptrs[n], cap) }) } else { cfg.parse_request(&mut req, b) };
+            revoke(false);
             let hs = if let Ok(Status::Complete(_)) = r { hdrs_str(req.headers, b) } else { "-".to_string() };
             probe_obs = format!("{} m={} p={} v={} view={} h={}", status_str(&r), osl(req.method, b), osl(req.path, b), onum(req.version), req.headers.len(), hs);
         }
@@ -419,16 +463,22 @@ fn run_hist(args: &[&str]) -> Option<String> {
             let init: &mut [Header<'_>] = unsafe { &mut *(a.slots_mut() as *mut [MaybeUninit<Header<'_>>] as *mut [Header<'_>]) };
             let mut resp = Response::new(init);
             for i in 0..n {
-                let cfg = mk_config(calls[i].1);
+                set_config(&mut shared, cur_bits, calls[i].1);
+                cur_bits = calls[i].1;
+                let cfg = &shared;
                 // SAFETY: as above
                 let r = if calls[i].0 == 0 { resp.parse(views[i]) } else if calls[i].0 == 3 { cfg.parse_response_with_uninit_headers(&mut resp, views[i], unsafe { uslice(uptrs[i], cap) }) } else { cfg.parse_response(&mut resp, views[i]) };
                 out.push_str(&format!("{};", status_str(&r)));
             }
             view_before = resp.headers.len();
-            let cfg = mk_config(calls[n].1);
+            set_config(&mut shared, cur_bits, calls[n].1);
+            if n % 2 == 1 { warm(&shared); }
+            let cfg = &shared;
             let b = views[n];
             // SAFETY: as above
+            revoke(true);
             let r = if calls[n].0 == 0 { resp.parse(b) } else if calls[n].0 == 3 { cfg.parse_response_with_uninit_headers(&mut resp, b, unsafe { uslice(uptrs[n], cap) }) } else { cfg.parse_response(&mut resp, b) };
+            revoke(false);
             let hs = if let Ok(Status::Complete(_)) = r { hdrs_str(resp.headers, b) } else { "-".to_string() };
             probe_obs = format!("{} v={} c={} r={} view={} h={}", status_str(&r), onum(resp.version), onum(resp.code), osl(resp.reason, b), resp.headers.len(), hs);
         }
@@ -492,6 +542,14 @@ fn place_of(s: &str) -> Option<(mem::Place, usize)> {
         Some((mem::Place::StartGuard, 0))
     } else if let Some(a) = s.strip_prefix("a") {
         Some((mem::Place::Align, a.parse().ok()?))
+    } else if let Some(a) = s.strip_prefix("p") {
+        Some((mem::Place::Straddle, a.parse().ok()?))
+    } else if let Some(a) = s.strip_prefix("g") {
+        Some((mem::Place::EndGap, a.parse().ok()?))
+    } else if s == "jb" {
+        Some((mem::Place::JointBufHdr, 0))
+    } else if s == "jh" {
+        Some((mem::Place::JointHdrBuf, 0))
     } else {
         None
     }
@@ -503,7 +561,9 @@ fn run_basic(kind: &str, rest: &[&str], place: mem::Place, align: usize) -> Opti
             let cfg: u32 = rest.get(0)?.parse().ok()?;
             let cap: usize = rest.get(1)?.parse().ok()?;
             let b = unhex(rest.get(2)?)?;
+            mem::JOINT_CAP.with(|c| c.set(cap));
             let arena = mem::ByteArena::new(&b, place, align);
+            mem::JOINT_CAP.with(|c| c.set(0));
             Some(if kind == "req" {
                 run_request(Entry::Cfg, cfg, arena.bytes(), cap, 0, place)
             } else {
@@ -513,7 +573,9 @@ fn run_basic(kind: &str, rest: &[&str], place: mem::Place, align: usize) -> Opti
         "hdrs" => {
             let cap: usize = rest.get(0)?.parse().ok()?;
             let b = unhex(rest.get(1)?)?;
+            mem::JOINT_CAP.with(|c| c.set(cap));
             let arena = mem::ByteArena::new(&b, place, align);
+            mem::JOINT_CAP.with(|c| c.set(0));
             Some(run_headers(arena.bytes(), cap, place))
         }
         "chunk" => {
@@ -615,6 +677,19 @@ fn run_case(line: &str) -> Option<String> {
             }
             Some(parts.join(" ;; "))
         }
+        "capsweepj" => {
+            // capacity sweep with buffer and header array touching in one mapping (jb: buffer end == array
+            // start, jh: array end == buffer start); the largest capacity, the reference, is placed apart
+            let (pl, _) = place_of(t.get(1)?)?;
+            let k = *t.get(2)?;
+            let maxcap: usize = t.get(4)?.parse().ok()?;
+            let mut parts = Vec::new();
+            for cap in 0..=maxcap {
+                let c = cap.to_string();
+                parts.push(run_basic(k, &[*t.get(3)?, &c, *t.get(5)?], if cap == maxcap { mem::Place::EndGuard } else { pl }, 0)?);
+            }
+            Some(parts.join(" ;; "))
+        }
         "cfgpair" => {
             let k = *t.get(1)?;
             let a = run_basic(k, &[*t.get(2)?, *t.get(4)?, *t.get(5)?], mem::Place::EndGuard, 0)?;
@@ -667,6 +742,15 @@ fn run_case(line: &str) -> Option<String> {
             })
         }
         "classes" => Some(class_table()),
+        "errtext" => {
+            use httparse::Error::*;
+            let mut v = Vec::new();
+            for (k, e) in [("HeaderName", HeaderName), ("HeaderValue", HeaderValue), ("NewLine", NewLine), ("Status", Status), ("Token", Token), ("TooManyHeaders", TooManyHeaders), ("Version", Version)] {
+                v.push(format!("{}={} {}.dbg={:?}", k, format!("{}", e).replace(' ', "_"), k, e));
+            }
+            v.push(format!("ChunkSize={} ChunkSize.dbg=ChunkSize", format!("{}", httparse::InvalidChunkSize).replace(' ', "_")));
+            Some(v.join(" "))
+        }
         "utf8" => {
             let b = unhex(t.get(1)?)?;
             Some(if std::str::from_utf8(&b).is_ok() { "1".to_string() } else { "0".to_string() })
@@ -730,6 +814,10 @@ fn main() {
         }
         Some("cost") => {
             gen::cmd_cost(&args[2..]);
+            Ok(())
+        }
+        Some("scale") => {
+            gen::cmd_scale(&args[2..]);
             Ok(())
         }
         Some("race") => {
